@@ -277,13 +277,13 @@ Section Backing.
         split; [unfold WF; rewrite G3, G5; exact W|].
         apply (backed_step s s' G3); [|exact B].
         intros c t' F'. rewrite find_mtok_tokens in F'.
-        destruct (token_effect_totals _ _ _ _ _ _ _ _ _ _ _ TE c t' F') as (t & F & T).
-        exists t. eexists. split; [exact F|]. split; [exact T|].
         assert (ESC : forall d, escrow s' d = escrow s d + ind ((p_owner p =? 1) && bytes_eqb d (cc_denom m)) (cc_amount m)).
         { intro d. unfold escrow. rewrite BS. destruct (Z.eqb_spec MODULE (cc_sender m)) as [EQ|_]; [congruence|].
           cbn [andb]. unfold ind at 1. rewrite Z.eqb_refl, andb_true_r. ring. }
         destruct OW as [O|O]; rewrite O in *; cbn [Z.eqb Pos.eqb andb] in *.
         * (* flow 1.1 *)
+          destruct (token_effect_totals _ _ _ _ _ _ _ _ _ _ _ TE c t' F') as (t & F & T).
+          exists t. eexists. split; [exact F|]. split; [exact T|].
           destruct (Z.eqb_spec c (p_erc20 p)) as [->|NC].
           -- unfold dtotal. destruct TE as (_ & _ & _ & _ & _ & _ & OK & _). rewrite OK.
              apply (backing_of_bump_ge _ _ _ _ (get_denom_map s (cc_denom m)) p (cc_denom m)).
@@ -297,6 +297,8 @@ Section Backing.
           -- rewrite Z.add_0_r. apply backing_of_mono. intro d. rewrite ESC. unfold ind.
              destruct (bytes_eqb d (cc_denom m)); lia.
         * (* flow 2.2: the module's balance is unchanged, totalSupply of module contracts too *)
+          destruct (token_effect2_totals _ _ _ _ _ _ _ _ _ _ _ _ _ TE c t' F') as (t & F & T).
+          exists t. eexists. split; [exact F|]. split; [exact T|].
           assert (dtotal (CTransfer (hex_to_addr (cc_receiver m)) (cc_amount m)) res = 0) as ->
             by (unfold dtotal; destruct (cr_ok res); reflexivity).
           replace (if c =? p_erc20 p then 0 else 0) with 0 by (destruct (c =? p_erc20 p); reflexivity).
